@@ -28,6 +28,18 @@ class LoopSpec:
         raise Unsupported("loop contract on iterable %r" % (it,))
 
     def run_for(self, E, node, fr, it):
+        if isinstance(it, (list, tuple)):
+            # concrete iterable: complete unrolling needs no contract
+            for x in it:
+                E.assign(node.target, x, fr)
+                try:
+                    E.exec_block(node.body, fr)
+                except _Break:
+                    return
+                except _Continue:
+                    continue
+            E.exec_block(node.orelse, fr)
+            return
         n = self._length(E, it)
         zn = n if not isinstance(n, int) else z3.IntVal(n)
         E.require("%s.inv_on_entry" % self.name, self.inv(E, fr, z3.IntVal(0)), kind="inv")
@@ -39,7 +51,12 @@ class LoopSpec:
             if self.facts:
                 for f in self.facts(E, fr, i):
                     E.assume(f)
-            x = self.elem(E, it, i) if self.elem else (it.get(i) if isinstance(it, SSeq) else None)
+            if self.elem:
+                x = self.elem(E, it, i)
+            elif hasattr(it, "elem"):
+                x = it.elem(E, i)
+            else:
+                x = it.get(i) if isinstance(it, SSeq) else None
             if x is None:
                 raise Unsupported("loop element")
             if isinstance(x, int) or z3.is_expr(x):
